@@ -97,7 +97,7 @@ theorem pad_ok (p : PF) (full : Bytes) (c : UInt8) (n : Nat) (h : Agrees p full)
   refine ⟨p', ?_, hc, ha⟩
   simp only [concat, List.length_replicate, List.take_replicate] at e
   simp only [pad]
-  have : min (limit p n) n = limit p n := by simp [limit]; omega
+  have : min (limit p n) n = limit p n := by simp [limit]
   rw [this] at e; exact e
 
 theorem push_ok (p : PF) (full : Bytes) (c : UInt8) (h : Agrees p full) :
@@ -115,7 +115,7 @@ theorem push_ok (p : PF) (full : Bytes) (c : UInt8) (h : Agrees p full) :
 
 /-- `pf_insert_pad`: `n` copies of `c` inserted at position `i` of the output -/
 theorem insertPad_ok (p : PF) (full : Bytes) (i : Nat) (c : UInt8) (n : Nat) (h : Agrees p full)
-    (hi : i < full.length) :
+    (hi : i ≤ full.length) :
     ∃ p', insertPad p i c n = some p' ∧ p'.cap = p.cap ∧
       Agrees p' (full.take i ++ List.replicate n c ++ full.drop i) := by
   obtain ⟨data, length⟩ := p
@@ -136,8 +136,7 @@ theorem insertPad_ok (p : PF) (full : Bytes) (i : Nat) (c : UInt8) (n : Nat) (h 
     exact hg j hj1 (by omega)
   · rename_i c0
     simp only [PF.cap] at c0
-    have hi2 : i < data.length := by omega
-    have hi3 : i < full.length := by omega
+    have hi2 : i ≤ data.length := by omega
     obtain ⟨d1, e1, l1, g1⟩ : ∃ d1, insertPadMove ⟨data, full.length⟩ i n = some d1 ∧
         d1.length = data.length ∧ ∀ j, d1[j]? = if i + n < data.length ∧ i + n ≤ j ∧
           j < i + n + (min full.length data.length - i - (min full.length data.length - i + n -
@@ -152,7 +151,7 @@ theorem insertPad_ok (p : PF) (full : Bytes) (i : Nat) (c : UInt8) (n : Nat) (h 
       · exact ⟨data, by simp only [c1, ↓reduceIte], rfl, fun j => by simp [c1]⟩
     obtain ⟨d2, e2, l2, g2⟩ := wr_some d1 i (List.replicate (min n (min (data.length - i)
         (min full.length data.length - i + n))) c) (Or.inr (by simp only [List.length_replicate]; omega))
-    refine ⟨{ data := d2, length := full.length + n }, ?_, by simp [PF.cap, l2, l1], by simp [hlen], ?_⟩
+    refine ⟨{ data := d2, length := full.length + n }, ?_, by simp [PF.cap, l2, l1], by rw [hlen], ?_⟩
     · simp only [e1, Option.bind_eq_bind, Option.bind_some, insertPadFill, PF.cap, e2]; rfl
     · intro j hj1 hj2
       simp only [PF.cap, l2, l1] at hj1
@@ -171,5 +170,302 @@ theorem insertPad_ok (p : PF) (full : Bytes) (i : Nat) (c : UInt8) (n : Nat) (h 
           have : i + (j - (i + n)) = i + (j - i - n) := by omega
           rw [this]
           exact hg _ (by omega) (by omega)
+
+/-! ### integer writers -/
+
+theorem revDigits_length (base : Nat) (upper : Bool) (hb : 2 ≤ base) :
+    ∀ (fuel k x : Nat), 1 ≤ k → x < base ^ k → (revDigits base upper fuel x).length ≤ k := by
+  intro fuel
+  induction fuel with
+  | zero => intro k x hk _; simp [revDigits]
+  | succ f ih =>
+    intro k x hk hx
+    unfold revDigits
+    simp only
+    split
+    · simpa using hk
+    · rename_i hne
+      have h1 : 1 ≤ x / base := Nat.pos_of_ne_zero hne
+      have hk2 : 2 ≤ k := by
+        rcases Nat.lt_or_ge k 2 with h | h
+        · have : k = 1 := by omega
+          subst this
+          simp only [Nat.pow_one] at hx
+          have := Nat.div_eq_of_lt hx
+          omega
+        · exact h
+      have hx2 : x / base < base ^ (k - 1) := by
+        rw [Nat.div_lt_iff_lt_mul (by omega)]
+        have : base ^ k = base ^ (k - 1) * base := by
+          rw [← Nat.pow_succ]; congr 1; omega
+        omega
+      have := ih (k - 1) (x / base) (by omega) hx2
+      simp only [List.length_cons]; omega
+
+theorem digits10_length (upper : Bool) (x : Nat) (hx : x < 1000000000) : (digits 10 upper x).length ≤ 9 := by
+  unfold digits
+  rw [List.length_reverse]
+  exact revDigits_length 10 upper (by omega) 64 9 x (by omega) (by simpa using hx)
+
+/-- the integer writers put the first `min n |digits|` digits at `off`, touch nothing before `off`
+and nothing at or after `off + n` -/
+theorem utoaAt_ok (d : Bytes) (off n base : Nat) (upper : Bool) (x : Nat) (hn : n = 0 ∨ off + n ≤ d.length) :
+    ∃ d', utoaAt d off n base upper x = some (d', (digits base upper x).length) ∧ d'.length = d.length ∧
+      (∀ j, j < off → d'[j]? = d[j]?) ∧
+      (∀ j, j < min n (digits base upper x).length → d'[off + j]? = (digits base upper x)[j]?) := by
+  unfold utoaAt
+  simp only
+  split
+  · rename_i hc
+    have hl := digits10_length upper x hc.2.2
+    rw [hc.1]
+    obtain ⟨d', e, l, g⟩ := wr_some d off (digits 10 upper x) (Or.inr (by omega))
+    refine ⟨d', by simp [e], l, fun j hj => ?_, fun j hj => ?_⟩
+    · rw [g j, if_neg (by omega)]
+    · rw [g (off + j), if_pos (by omega)]; congr 1; omega
+  · generalize digits base upper x = ds
+    unfold reverseCopy
+    obtain ⟨d1, e1, l1, g1⟩ := wr_some d off (ds.take (min n ds.length))
+      (by simp only [List.length_take]; omega)
+    by_cases hlt : ds.length < n
+    · obtain ⟨d2, e2, l2, g2⟩ := wr_some d1 (off + ds.length) [0] (Or.inr (by simp only [List.length_singleton]; omega))
+      refine ⟨d2, by simp [e1, hlt, e2], by omega, fun j hj => ?_, fun j hj => ?_⟩
+      · rw [g2 j, if_neg (by omega), g1 j, if_neg (by omega)]
+      · rw [g2 (off + j), if_neg (by omega), g1 (off + j), if_pos (by simp only [List.length_take]; omega),
+          List.getElem?_take, if_pos (by omega)]
+        congr 1; omega
+    · refine ⟨d1, by simp [e1, hlt], l1, fun j hj => ?_, fun j hj => ?_⟩
+      · rw [g1 j, if_neg (by omega)]
+      · rw [g1 (off + j), if_pos (by simp only [List.length_take]; omega), List.getElem?_take, if_pos (by omega)]
+        congr 1; omega
+
+/-- number of leading zeroes the precision asks for -/
+def zeroFill (prec : Option Nat) (written : Nat) : Nat :=
+  match prec with
+  | some w => if w ≤ written then 0 else w - written
+  | none => 0
+
+/-- `pf_write_leading_zeroes`: with the first digits `ds` (at least as many as fit) sitting at
+`data + length`, the destination afterwards holds `full ++ zeroes ++ ds` as far as it reaches -/
+theorem leadingZeroes_ok (p : PF) (full ds : Bytes) (written : Nat) (prec : Option Nat)
+    (h : Agrees p full) (hk : ds.length ≤ written)
+    (hsrc : ∀ j, j < min ds.length (capLeft p) → p.data[p.length + j]? = ds[j]?) :
+    ∃ p', leadingZeroes p written prec = some p' ∧ p'.cap = p.cap ∧
+      p'.length = p.length + written + zeroFill prec written ∧
+      ∀ i, i < p.cap → i < full.length + zeroFill prec written + ds.length →
+        p'.data[i]? = (full ++ List.replicate (zeroFill prec written) 48 ++ ds)[i]? := by
+  obtain ⟨data, length⟩ := p
+  obtain ⟨hl, hg⟩ := h
+  simp only [PF.cap] at hl hg
+  subst hl
+  have hcl : capLeft ⟨data, full.length⟩ = data.length - full.length := by simp [capLeft_eq, PF.cap]
+  simp only [hcl] at hsrc
+  cases prec with
+  | none =>
+    refine ⟨_, rfl, rfl, by simp [zeroFill], fun i hi1 hi2 => ?_⟩
+    simp only [PF.cap, zeroFill, Nat.add_zero, List.replicate_zero, List.append_nil] at hi1 hi2 ⊢
+    by_cases c : i < full.length
+    · rw [List.getElem?_append_left c]; exact hg i hi1 c
+    · rw [List.getElem?_append_right (by omega)]
+      have := hsrc (i - full.length) (by omega)
+      rw [← this]; congr 1; omega
+  | some w =>
+    simp only [leadingZeroes, zeroFill, hcl, limit, PF.cap]
+    generalize hdiff : (if w ≤ written then 0 else w - written) = diff
+    obtain ⟨d1, e1, l1, g1⟩ := mv_some data (full.length + diff) full.length
+      (if diff ≥ data.length - full.length then 0 else min written (data.length - full.length - diff))
+      (by split <;> omega)
+    obtain ⟨d2, e2, l2, g2⟩ := wr_some d1 full.length (List.replicate (min (data.length - full.length) diff) 48)
+      (by simp only [List.length_replicate]; omega)
+    refine ⟨{ data := d2, length := full.length + written + diff }, ?_, by simp [PF.cap, l2, l1],
+      rfl, fun i hi1 hi2 => ?_⟩
+    · simp only [e1, Option.bind_eq_bind, Option.bind_some, e2]; rfl
+    rw [g2 i, List.length_replicate, get_splice, List.length_replicate]
+    by_cases a1 : i < full.length
+    · rw [if_neg (by omega), if_pos a1, g1 i, if_neg (by omega)]; exact hg i hi1 a1
+    · by_cases a2 : i < full.length + diff
+      · rw [if_pos (by omega), if_neg a1, if_pos a2]
+        simp only [List.getElem?_replicate]
+        rw [if_pos (by omega), if_pos (by omega)]
+      · rw [if_neg (by omega), if_neg a1, if_neg a2, g1 i]
+        have hd : ¬ diff ≥ data.length - full.length := by omega
+        rw [if_neg hd, if_pos (by omega)]
+        have := hsrc (i - (full.length + diff)) (by omega)
+        rw [this]; congr 1; omega
+
+/-- an unsigned conversion body appends the zero-fill and the digits -/
+theorem writeUInt_ok (p : PF) (full : Bytes) (base : Nat) (upper : Bool) (prec : Option Nat) (x : Nat)
+    (h : Agrees p full) :
+    ∃ p', writeUInt p base upper prec x = some p' ∧ p'.cap = p.cap ∧
+      Agrees p' (full ++ List.replicate (zeroFill prec (digits base upper x).length) 48 ++ digits base upper x) := by
+  have hcap : capLeft p = 0 ∨ p.length + capLeft p ≤ p.data.length := by simp only [capLeft_eq, PF.cap]; omega
+  obtain ⟨d', e, l, g0, g1⟩ := utoaAt_ok p.data p.length (capLeft p) base upper x hcap
+  have h' : Agrees { p with data := d' } full := by
+    refine ⟨h.1, fun i hi1 hi2 => ?_⟩
+    simp only [PF.cap, l] at hi1
+    rw [g0 i (by rw [h.1]; exact hi2)]; exact h.2 i hi1 hi2
+  obtain ⟨p', e', c', l', g'⟩ := leadingZeroes_ok { p with data := d' } full (digits base upper x)
+    (digits base upper x).length prec h' (Nat.le_refl _) (by
+      intro j hj
+      have : capLeft { p with data := d' } = capLeft p := by simp [capLeft_eq, PF.cap, l]
+      rw [this] at hj
+      exact g1 j (by omega))
+  refine ⟨p', by simp [writeUInt, e, e'], by rw [c']; simp [PF.cap, l], ?_, fun i hi1 hi2 => ?_⟩
+  · rw [l']; simp [h.1]; omega
+  · rw [c'] at hi1
+    simp only [List.length_append, List.length_replicate] at hi2
+    exact g' i hi1 hi2
+
+/-- `%#o` of a non-zero value: '0', the zero-fill counted as if the '0' were a digit, the digits -/
+theorem writeOctAlt_ok (p : PF) (full : Bytes) (prec : Option Nat) (x : Nat) (h : Agrees p full) :
+    ∃ p', writeOctAlt p prec x = some p' ∧ p'.cap = p.cap ∧
+      Agrees p' (full ++ [48] ++ List.replicate (zeroFill prec (1 + (digits 8 false x).length)) 48 ++ digits 8 false x) := by
+  obtain ⟨p1, e1, c1, a1⟩ := push_ok p full 48 h
+  have hcap : capLeft p1 = 0 ∨ p1.length + capLeft p1 ≤ p1.data.length := by simp only [capLeft_eq, PF.cap]; omega
+  obtain ⟨d', e, l, g0, g1⟩ := utoaAt_ok p1.data p1.length (capLeft p1) 8 false x hcap
+  have h' : Agrees { p1 with data := d' } (full ++ [48]) := by
+    refine ⟨a1.1, fun i hi1 hi2 => ?_⟩
+    simp only [PF.cap, l] at hi1
+    rw [g0 i (by rw [a1.1]; exact hi2)]; exact a1.2 i hi1 hi2
+  obtain ⟨p2, e2, c2, l2, g2⟩ := leadingZeroes_ok { p1 with data := d' } (full ++ [48]) (digits 8 false x)
+    (1 + (digits 8 false x).length) prec h' (by omega) (by
+      intro j hj
+      have : capLeft { p1 with data := d' } = capLeft p1 := by simp [capLeft_eq, PF.cap, l]
+      rw [this] at hj
+      exact g1 j (by omega))
+  refine ⟨{ p2 with length := p2.length - 1 }, by simp [writeOctAlt, e1, e, e2], ?_, ?_, fun i hi1 hi2 => ?_⟩
+  · simp only [PF.cap] at c2 c1 ⊢; rw [c2, ← c1]; simp [l]
+  · simp only [l2, a1.1]; simp; omega
+  · have hc : p2.cap = p1.cap := by simp only [PF.cap] at c2 ⊢; rw [c2]; simp [l]
+    simp only [PF.cap] at hi1 hc c1
+    simp only [List.length_append, List.length_replicate, List.length_singleton] at hi2
+    exact g2 i (by simp only [PF.cap, l]; omega) (by simp only [List.length_append, List.length_singleton]; omega)
+
+/-! ### the float converter's output steps -/
+
+theorem lastDigits_length (count x : Nat) : (lastDigits count x).length = count := by simp [lastDigits]
+
+theorem dDigits_length (m x : Nat) : (dDigits m x).length = m + 1 := by
+  unfold dDigits
+  have := lastDigits_length m x
+  split
+  · rename_i h; rw [h] at this; simp at this; simp [← this]
+  · rename_i hd tl h; rw [h] at this; simp at this ⊢; omega
+
+/-- a direct write of a text that fits is what `pf_concat` does -/
+theorem direct_eq_concat (p : PF) (s : Bytes) (h : capLeft p ≥ s.length) :
+    (do let d ← wr p.data p.length s; pure ({ data := d, length := p.length + s.length } : PF)) = concat p s := by
+  have : limit p s.length = s.length := by simp [limit]; omega
+  simp [concat, this]
+
+theorem appendNine_eq (p : PF) (x : Nat) : appendNine p x = concat p (lastDigits 9 x) := by
+  unfold appendNine
+  split
+  · rename_i h
+    have := direct_eq_concat p (lastDigits 9 x) (by rw [lastDigits_length]; exact h)
+    rw [lastDigits_length] at this; exact this
+  · rfl
+
+theorem appendC_eq (p : PF) (c x : Nat) : appendC p c x = concat p (lastDigits c x) := by
+  unfold appendC
+  split
+  · rename_i h
+    have := direct_eq_concat p (lastDigits c x) (by rw [lastDigits_length]; exact h)
+    rw [lastDigits_length] at this; exact this
+  · rfl
+
+theorem appendD_eq (p : PF) (m x : Nat) : appendD p m x = concat p (dDigits m x) := by
+  unfold appendD
+  split
+  · rename_i h
+    have := direct_eq_concat p (dDigits m x) (by rw [dDigits_length]; exact h)
+    rw [dDigits_length] at this
+    simpa [Nat.add_assoc] using this
+  · rfl
+
+theorem appendUtoa_ok (p : PF) (full : Bytes) (x : Nat) (h : Agrees p full) :
+    ∃ p', appendUtoa p x = some p' ∧ p'.cap = p.cap ∧ Agrees p' (full ++ digits 10 false x) := by
+  unfold appendUtoa
+  split
+  · rename_i h9
+    have hcap : capLeft p = 0 ∨ p.length + capLeft p ≤ p.data.length := by simp only [capLeft_eq, PF.cap]; omega
+    obtain ⟨d', e, l, g0, g1⟩ := utoaAt_ok p.data p.length (capLeft p) 10 false x hcap
+    refine ⟨{ data := d', length := p.length + (digits 10 false x).length }, by simp [e], by simp [PF.cap, l], by simp [h.1], fun i hi1 hi2 => ?_⟩
+    simp only [PF.cap, l] at hi1
+    simp only [List.length_append] at hi2
+    by_cases c : i < full.length
+    · rw [List.getElem?_append_left c, g0 i (by rw [h.1]; exact c)]; exact h.2 i hi1 c
+    · rw [List.getElem?_append_right (by omega)]
+      have := g1 (i - full.length) (by simp only [capLeft_eq, PF.cap, h.1]; omega)
+      rw [← this, h.1]; congr 1; omega
+  · exact concat_ok p full _ h
+
+theorem emit_ok (p : PF) (full : Bytes) (e : Emit) (h : Agrees p full) :
+    ∃ p', emit p e = some p' ∧ p'.cap = p.cap ∧ Agrees p' (full ++ e.text) := by
+  cases e with
+  | push c => exact push_ok p full c h
+  | pad c n => exact pad_ok p full c n h
+  | concat s => exact concat_ok p full s h
+  | utoa x => exact appendUtoa_ok p full x h
+  | nine x => simp only [emit, appendNine_eq, Emit.text]; exact concat_ok p full _ h
+  | cdig c x => simp only [emit, appendC_eq, Emit.text]; exact concat_ok p full _ h
+  | ddig m x => simp only [emit, appendD_eq, Emit.text]; exact concat_ok p full _ h
+
+def planText (plan : List Emit) : Bytes := plan.flatMap Emit.text
+
+theorem emitAll_ok (plan : List Emit) : ∀ (p : PF) (full : Bytes), Agrees p full →
+    ∃ p', emitAll p plan = some p' ∧ p'.cap = p.cap ∧ Agrees p' (full ++ planText plan) := by
+  induction plan with
+  | nil => intro p full h; exact ⟨p, rfl, rfl, by simpa [planText] using h⟩
+  | cons e es ih =>
+    intro p full h
+    obtain ⟨p1, e1, c1, a1⟩ := emit_ok p full e h
+    obtain ⟨p2, e2, c2, a2⟩ := ih p1 _ a1
+    refine ⟨p2, by simp [emitAll, e1, e2], by rw [c2, c1], ?_⟩
+    simpa [planText, List.append_assoc] using a2
+
+theorem terminate_ok (p : PF) (full : Bytes) (h : Agrees p full) :
+    ∃ p', terminate p = some p' ∧ p'.cap = p.cap ∧ Agrees p' full := by
+  unfold terminate
+  split
+  · rename_i hc
+    have : p.length < p.cap := by simp only [capLeft_eq] at hc; omega
+    obtain ⟨d', e, l, g⟩ := wr_some p.data p.length [0] (Or.inr (by simp only [List.length_singleton, PF.cap] at *; omega))
+    refine ⟨{ p with data := d' }, by simp [e], by simp [PF.cap, l], h.1, fun i hi1 hi2 => ?_⟩
+    simp only [PF.cap, l] at hi1
+    rw [g i, if_neg (by rw [h.1]; omega)]; exact h.2 i hi1 hi2
+  · exact ⟨p, rfl, rfl, h⟩
+
+/-- **the float writer stays inside the destination for every plan of output steps**, and leaves a
+prefix of the unbounded output -/
+theorem writeFloat_ok (p : PF) (full : Bytes) (plan : List Emit) (h : Agrees p full) :
+    ∃ p', writeFloat p plan = some p' ∧ p'.cap = p.cap ∧ Agrees p' (full ++ planText plan) := by
+  obtain ⟨data, length⟩ := p
+  obtain ⟨hl, hg⟩ := h
+  simp only [PF.cap] at hl hg
+  subst hl
+  generalize hk : min full.length data.length = k
+  have hw : Agrees ({ data := data.drop k, length := 0 } : PF) [] :=
+    ⟨rfl, fun i _ hi => by simp at hi⟩
+  obtain ⟨w1, e1, c1, a1⟩ := emitAll_ok plan _ [] hw
+  obtain ⟨w2, e2, c2, a2⟩ := terminate_ok w1 _ a1
+  simp only [List.nil_append] at a2
+  have hcw : w2.data.length = data.length - k := by
+    have := c2.trans c1; simpa [PF.cap] using this
+  refine ⟨{ data := data.take k ++ w2.data, length := full.length + w2.length },
+    by simp [writeFloat, PF.cap, hk, e1, e2], ?_, ?_, fun i hi1 hi2 => ?_⟩
+  · simp only [PF.cap, List.length_append, List.length_take, hcw]; omega
+  · simp [a2.1]
+  · simp only [PF.cap, List.length_append, List.length_take, hcw] at hi1
+    simp only [List.length_append] at hi2
+    have hi : i < data.length := by omega
+    have hlk : (data.take k).length = k := by simp only [List.length_take]; omega
+    by_cases c : i < full.length
+    · rw [List.getElem?_append_left c, List.getElem?_append_left (by omega),
+        List.getElem?_take, if_pos (by omega)]
+      exact hg i hi c
+    · have hkf : k = full.length := by omega
+      rw [List.getElem?_append_right (by omega), List.getElem?_append_right (by omega), hlk, hkf]
+      exact a2.2 _ (by simp only [PF.cap, hcw]; omega) (by omega)
 
 end Gpc.PF
